@@ -2,6 +2,7 @@ package coins
 
 import (
 	"bytes"
+	"regexp"
 	"encoding/hex"
 	"fmt"
 	"math/big"
@@ -34,7 +35,7 @@ type c09Op struct {
 	K          string `json:"k,omitempty"`
 	N          int    `json:"n,omitempty"`
 	Signer     int    `json:"signer"`
-	Dep        int    `json:"dep"`                   // 0 unset (default limit), 1 ample, 2 one ugnot, 3 small fixed, 4 last observed for this kind + D
+	Dep        int    `json:"dep"`                   // 0 unset (default limit), 1 ample, 2 one ugnot, 3 small fixed, 4 requirement learnt from a rolled-back probe + D
 	D          int64  `json:"d,omitempty"`           // offset for Dep 4
 	Price      int64  `json:"price,omitempty"`       // price ops: new price
 	PriceFirst int64  `json:"price_first,omitempty"` // >0: the tx has two messages, SetPrice(PriceFirst) then the op
@@ -44,7 +45,12 @@ type c09Case struct {
 	Ops []c09Op `json:"ops"`
 }
 
-const c09DefaultLimit = 600_000_000
+const (
+	c09DefaultLimit = 600_000_000
+	c09Ample        = 1_000_000_000
+)
+
+var c09Requires = regexp.MustCompile(`requires (\d+)ugnot`)
 
 var c09Kinds = []string{
 	"push", "push", "pop", "set", "del", "make", "add", "add", "trim", "drop", "note", "unnote", "both", "growshrink",
@@ -57,8 +63,8 @@ func c09DrawOp(rt *rapid.T) c09Op {
 	o.S = rapid.StringMatching("[a-z]{0,40}").Draw(rt, "s")
 	o.K = rapid.SampledFrom([]string{"a", "b", "kk", "long_key_name"}).Draw(rt, "k")
 	o.N = rapid.IntRange(0, 4).Draw(rt, "n")
-	o.Dep = rapid.SampledFrom([]int{0, 0, 0, 1, 2, 3, 4, 4, 4}).Draw(rt, "dep")
-	o.D = rapid.SampledFrom([]int64{-1, 0, 0, 1, -100, 100}).Draw(rt, "d")
+	o.Dep = rapid.SampledFrom([]int{0, 0, 0, 4, 1, 2, 3, 4}).Draw(rt, "dep")
+	o.D = rapid.SampledFrom([]int64{0, -1, 1, 0, -100, 100}).Draw(rt, "d")
 	o.Price = rapid.SampledFrom([]int64{1, 50, 100, 250, 1000}).Draw(rt, "price")
 	if rapid.IntRange(0, 7).Draw(rt, "pf") == 0 && !strings.Contains(o.Kind, "price") {
 		o.PriceFirst = rapid.SampledFrom([]int64{1, 50, 250, 1000}).Draw(rt, "pricefirst")
@@ -69,16 +75,8 @@ func c09DrawOp(rt *rapid.T) c09Op {
 func c09Draw(rt *rapid.T) c09Case {
 	n := rapid.IntRange(8, 24).Draw(rt, "nops")
 	c := c09Case{}
-	last := map[string]c09Op{}
 	for i := 0; i < n; i++ {
-		o := c09DrawOp(rt)
-		if p, ok := last[o.Kind]; ok && o.Dep == 4 {
-			// same arguments as the previous op of this kind: its byte delta is the best
-			// available predictor, so limit = last lock + D lands on or next to the boundary
-			o.S, o.K, o.N = p.S, p.K, p.N
-		}
-		last[o.Kind] = o
-		c.Ops = append(c.Ops, o)
+		c.Ops = append(c.Ops, c09DrawOp(rt))
 	}
 	return c
 }
@@ -101,7 +99,11 @@ type c09Snap struct {
 
 // c09Snapshot re-reads everything from the committed DB through an
 // independent multistore.
-func c09Snapshot(ch *ec.Chain, users []ec.Key) (*c09Snap, error) {
+//
+// known == nil scans every oid: key of the base store (all realm records,
+// stdlibs included); otherwise only the key ranges of the listed realm paths
+// are read (the per-transaction fast path).
+func c09Snapshot(ch *ec.Chain, users []ec.Key, known []string) (*c09Snap, error) {
 	rd, err := ec.OpenReader(ch.DB)
 	if err != nil {
 		return nil, err
@@ -110,21 +112,44 @@ func c09Snapshot(ch *ec.Chain, users []ec.Key) (*c09Snap, error) {
 	objBytes := map[string]int64{} // hex pkgid -> bytes
 	recs := map[string]*gnolang.Realm{}
 	st := rd.MS.GetStore(rd.BaseKey)
-	it := st.Iterator(nil, []byte("oid:"), []byte("oid;"))
+	ranges := [][2][]byte{{[]byte("oid:"), []byte("oid;")}}
+	if known != nil {
+		ranges = nil
+		for _, p := range known {
+			id := gnolang.PkgIDFromPkgPath(p)
+			pre := "oid:" + hex.EncodeToString(id.Hashlet[:])
+			ranges = append(ranges, [2][]byte{[]byte(pre + ":"), []byte(pre + ";")})
+		}
+	}
+	for _, rg := range ranges {
+		if err := c09Scan(st.Iterator(nil, rg[0], rg[1]), objBytes, recs); err != nil {
+			return nil, err
+		}
+	}
+	return c09Finish(s, rd, objBytes, recs, users)
+}
+
+func c09Scan(it interface {
+	Valid() bool
+	Next()
+	Key() []byte
+	Value() []byte
+	Close() error
+}, objBytes map[string]int64, recs map[string]*gnolang.Realm) error {
 	for ; it.Valid(); it.Next() {
 		k := string(it.Key())
 		rest := k[len("oid:"):]
 		i := strings.IndexByte(rest, ':')
 		if i < 0 {
 			it.Close()
-			return nil, fmt.Errorf("unexpected base-store key %q", k)
+			return fmt.Errorf("unexpected base-store key %q", k)
 		}
 		pid := rest[:i]
 		if strings.HasSuffix(k, "#realm") {
 			var rlm *gnolang.Realm
 			if err := amino.Unmarshal(it.Value(), &rlm); err != nil {
 				it.Close()
-				return nil, fmt.Errorf("realm record %q does not decode: %v", k, err)
+				return fmt.Errorf("realm record %q does not decode: %v", k, err)
 			}
 			recs[pid] = rlm
 			continue
@@ -132,6 +157,10 @@ func c09Snapshot(ch *ec.Chain, users []ec.Key) (*c09Snap, error) {
 		objBytes[pid] += int64(len(it.Value()))
 	}
 	it.Close()
+	return nil
+}
+
+func c09Finish(s *c09Snap, rd *ec.Reader, objBytes map[string]int64, recs map[string]*gnolang.Realm, users []ec.Key) (*c09Snap, error) {
 	l := ec.LedgerOf(rd.MainDump())
 	if len(l.Problems) > 0 {
 		return nil, fmt.Errorf("malformed ledger: %s", strings.Join(l.Problems, "; "))
@@ -308,12 +337,20 @@ func c09Exec(ctx *vk.Ctx, c c09Case) error {
 		}
 	}
 	ch.End()
-	before, err := c09Snapshot(ch, users)
+	known := []string{c09PathOwn, c09PathUsr, c09PathPrm, c09PathSys}
+	full, err := c09Snapshot(ch, users, nil)
 	if err != nil {
 		return err
 	}
-	if err := before.invariants(); err != nil {
+	if err := full.invariants(); err != nil {
 		return fmt.Errorf("after deployment: %v", err)
+	}
+	if len(full.realms) != len(known) {
+		return fmt.Errorf("harness: %d realm records after deployment, expected %d: %v", len(full.realms), len(known), full.paths())
+	}
+	before, err := c09Snapshot(ch, users, known)
+	if err != nil {
+		return err
 	}
 	for _, p := range []string{c09PathOwn, c09PathUsr, c09PathPrm, c09PathSys} {
 		r := before.realms[p]
@@ -325,7 +362,6 @@ func c09Exec(ctx *vk.Ctx, c c09Case) error {
 		}
 	}
 	price := int64(100)
-	lastLocked := map[string]int64{}
 	tsec := int64(10)
 	// non-trivial rule bookkeeping
 	grew, priceChangedAfterGrowth, ntDone := false, false, false
@@ -333,27 +369,14 @@ func c09Exec(ctx *vk.Ctx, c c09Case) error {
 
 	// run delivers one tx in its own block and judges it; it returns the
 	// total locked by the tx and whether it failed for lack of deposit.
-	run := func(i int, o c09Op, limitMode int, what string) (locked int64, depositFailure bool, err error) {
+	hint := int64(0) // sum of the "requires N ugnot" figures of the last deposit failure (generator aid only)
+	run := func(i int, o c09Op, limit int64, what string) (locked int64, depositFailure bool, err error) {
 		k := users[o.Signer%len(users)]
 		msgs := []std.Msg{}
 		msgPrice := price
 		if o.PriceFirst > 0 {
 			msgs = append(msgs, ec.Call(k.Addr, c09PathSys, "SetPrice", []string{fmt.Sprintf("%dugnot", o.PriceFirst)}, nil))
 			msgPrice = o.PriceFirst
-		}
-		limit := int64(0)
-		switch limitMode {
-		case 1:
-			limit = 1_000_000_000
-		case 2:
-			limit = 1
-		case 3:
-			limit = 20_000
-		case 4:
-			limit = lastLocked[o.Kind] + o.D
-			if limit <= 0 {
-				limit = 1
-			}
 		}
 		effLimit := limit
 		if limit == 0 {
@@ -370,7 +393,12 @@ func c09Exec(ctx *vk.Ctx, c c09Case) error {
 		if r.GasWanted == 0 {
 			return 0, false, fmt.Errorf("harness: %s rejected by the ante handler: %v", what, r.Error)
 		}
-		after, err := c09Snapshot(ch, users)
+		if o.Kind == "addpkg" {
+			if p := fmt.Sprintf("gno.land/r/st/n%d", i); !strings.Contains(strings.Join(known, " ")+" ", p+" ") {
+				known = append(known, p)
+			}
+		}
+		after, err := c09Snapshot(ch, users, known)
 		if err != nil {
 			return 0, false, fmt.Errorf("%s: %v", what, err)
 		}
@@ -394,6 +422,12 @@ func c09Exec(ctx *vk.Ctx, c c09Case) error {
 				return 0, false, fmt.Errorf("%s failed (%v) and cost the signer %d, fee is %d", what, r.Error, d, c09Fee)
 			}
 			depFail := strings.Contains(r.Error.Error()+r.Log, "not enough deposit to cover the storage usage")
+			hint = 0
+			for _, m := range c09Requires.FindAllStringSubmatch(r.Error.Error(), -1) {
+				var n int64
+				fmt.Sscan(m[1], &n)
+				hint += n
+			}
 			ctx.Class("failed:" + map[bool]string{true: "deposit-limit", false: "other"}[depFail])
 			return 0, depFail, nil
 		}
@@ -440,12 +474,14 @@ func c09Exec(ctx *vk.Ctx, c c09Case) error {
 		if locked == effLimit {
 			exact++
 		}
+		if o.Dep == 4 && limit != c09Ample && locked > 0 {
+			ctx.Class(fmt.Sprintf("dep4 ok, limit-lock=%s", c09Bucket(effLimit-locked)))
+		}
 		if d := before.bal[signer] - after.bal[signer]; d != c09Fee+locked-refunded {
 			return 0, false, fmt.Errorf("%s: signer paid %d; fee %d + locked %d - refunded %d = %d", what, d, c09Fee, locked, refunded, c09Fee+locked-refunded)
 		}
 		if locked > 0 {
 			grew = true
-			lastLocked[o.Kind] = locked
 		}
 		np := o.newPrice()
 		if np == 0 && o.PriceFirst > 0 {
@@ -463,40 +499,67 @@ func c09Exec(ctx *vk.Ctx, c c09Case) error {
 
 	for i, o := range c.Ops {
 		what := fmt.Sprintf("op %d %s(dep mode %d)", i, o.Kind, o.Dep)
-		limitBefore := int64(0)
+		limit := int64(0) // unset: the chain's default limit applies
 		switch o.Dep {
-		case 0:
-			limitBefore = c09DefaultLimit
 		case 1:
-			limitBefore = 1_000_000_000
+			limit = c09Ample
 		case 2:
-			limitBefore = 1
+			limit = 1
 		case 3:
-			limitBefore = 20_000
+			limit = 20_000
 		case 4:
-			limitBefore = lastLocked[o.Kind] + o.D
-			if limitBefore <= 0 {
-				limitBefore = 1
+			// probe: with a limit of 1 ugnot any growing message fails and is rolled back;
+			// its error text names the requirement, which (+D) becomes the real limit
+			limit = 1
+			_, depFail, err := run(i, o, 1, what+" probed with a limit of 1 ugnot")
+			if err != nil {
+				return err
+			}
+			if !depFail {
+				continue // no growth (or another failure): nothing to bound
+			}
+			if hint > 0 && hint+o.D > 0 {
+				limit = hint + o.D
 			}
 		}
-		_, depFail, err := run(i, o, o.Dep, what)
+		effLimit := limit
+		if limit == 0 {
+			effLimit = c09DefaultLimit
+		}
+		what = fmt.Sprintf("%s limit %d", what, effLimit)
+		_, depFail, err := run(i, o, limit, what)
 		if err != nil {
 			return err
 		}
 		if depFail {
 			insufficient++
 			// confirm by re-executing the identical message (state was rolled back) with an ample limit
-			o2 := o
-			locked, depFail2, err := run(i, o2, 1, what+" re-executed with an ample limit")
+			locked, depFail2, err := run(i, o, c09Ample, what+" re-executed with an ample limit")
 			if err != nil {
 				return err
 			}
 			if depFail2 {
-				return fmt.Errorf("%s: failed for lack of deposit even with a limit of 1e9 ugnot", what)
+				return fmt.Errorf("%s: failed for lack of deposit even with a limit of %d ugnot", what, c09Ample)
 			}
-			if locked <= limitBefore && locked > 0 {
-				return fmt.Errorf("%s failed with 'not enough deposit' under a limit of %d ugnot, yet the identical message needs only %d", what, limitBefore, locked)
+			if o.Dep == 4 {
+				ctx.Class(fmt.Sprintf("dep4 failed, lock-limit=%s", c09Bucket(locked-effLimit)))
 			}
+			if locked <= effLimit && locked > 0 {
+				return fmt.Errorf("%s failed with 'not enough deposit', yet the identical message needs only %d", what, locked)
+			}
+		}
+	}
+	// closing full scan: every realm record of the chain, not only the ones the history names
+	full, err = c09Snapshot(ch, users, nil)
+	if err != nil {
+		return err
+	}
+	if err := full.invariants(); err != nil {
+		return fmt.Errorf("closing full scan: %v", err)
+	}
+	for _, p := range full.paths() {
+		if before.realms[p] == nil {
+			return fmt.Errorf("closing full scan: realm record %s appeared outside the realms named by the history", p)
 		}
 	}
 	ctx.ClassIf(foreign > 0, "foreign-owner-charged")
@@ -505,6 +568,18 @@ func c09Exec(ctx *vk.Ctx, c c09Case) error {
 	ctx.ClassIf(priceChangedAfterGrowth, "price-change-after-growth")
 	ctx.NTIf(ntDone)
 	return nil
+}
+
+func c09Bucket(d int64) string {
+	switch {
+	case d == 0:
+		return "0"
+	case d == 1:
+		return "1"
+	case d <= 100:
+		return "2..100"
+	}
+	return ">100"
 }
 
 // priceHint is only used in error messages.
@@ -518,7 +593,7 @@ func (s *c09Snap) priceHint(o c09Op, p int64) int64 {
 func TestC09_Storage(t *testing.T) {
 	vk.Run(t, vk.Spec[c09Case]{
 		ID: "C09", Name: "TestC09_Storage",
-		Rule: "rapid: histories of 8-24 txs (one per block, 3 signers) over 4 realms: list/map growth and shrink, objects allocated under another realm's storage context and attached/modified/dropped by a second realm (owner is charged), cross calls growing two realms or growing one while releasing the other, chain/params writes and deletes (per-realm byte accumulator), storage-price changes through gno.land/r/sys/params alone, before the op in the same tx, and inside a growing message (before and after the growth), new realm deployments and MsgRun scripts; deposit limits unset / ample / 1 ugnot / small / last observed lock for the same kind -1,0,+1,+-100; a message failing for lack of deposit is re-executed with an ample limit to confirm the shortage. Oracle: recount of oid:<pkgid>:* bytes and vm:<realm>:* parameter bytes for every realm record, deposit-address balances, lock = bytes x message-start price, proportional refund, signer's exact balance delta; non-trivial = growth, then a price change, then a partial shrink",
+		Rule: "rapid: histories of 8-24 txs (one per block, 3 signers) over 4 realms: list/map growth and shrink, objects allocated under another realm's storage context and attached/modified/dropped by a second realm (owner is charged), cross calls growing two realms or growing one while releasing the other, chain/params writes and deletes (per-realm byte accumulator), storage-price changes through gno.land/r/sys/params alone, before the op in the same tx, and inside a growing message (before and after the growth), new realm deployments and MsgRun scripts; deposit limits unset / ample / 1 ugnot / small / the requirement learnt from a rolled-back 1-ugnot probe of the same message -1,0,+1,+-100; a message failing for lack of deposit is re-executed with an ample limit to confirm the shortage. Oracle: recount of oid:<pkgid>:* bytes and vm:<realm>:* parameter bytes for every realm record, deposit-address balances, lock = bytes x message-start price, proportional refund, signer's exact balance delta; non-trivial = growth, then a price change, then a partial shrink",
 		Draw: c09Draw, Exec: c09Exec,
 	})
 }
